@@ -81,7 +81,7 @@ def gen_valid(rng, nlev=None):
 
 FAULTS = [
     'drop problem_class', 'drop sweeper_class', 'drop sweeper_params', 'drop level_params', 'drop num_nodes', 'no space transfer', 'bad predict_type ML', 'bad residual_type',
-    'bad initial_guess', 'bad quad_type', 'bad node_type', 'bad QI', 'nsweeps coarse>1', 'PFASST GAUSS', 'PFASST RADAU-LEFT', 'dtype_u key', 'dtype_f key', 'predict key',
+    'bad initial_guess', 'bad quad_type', 'bad node_type', 'bad QI', 'nsweeps coarse>1', 'PFASST GAUSS', 'PFASST RADAU-LEFT', 'PFASST mixed quad_type', 'dtype_u key', 'dtype_f key', 'predict key',
     'level.status.foo', 'level.params.foo', 'step.status.foo', 'step.params.foo', 'sweep.params.foo', 'controller.params.foo', 'level.foo', 'step.foo', 'prob.nvars=', 'prob.nu=',
     'odd iorder', 'bad QE', 'attribute of a sibling class',
 ]
@@ -93,7 +93,7 @@ def cases(tier, seed):
     for i in range(400 if tier == 'quick' else 9000):
         cs.append(dict(kind='valid', seed=int(rng.integers(0, 2**31)), _cost=8))
     for i in range(60 if tier == 'quick' else 900):
-        cs.append(dict(kind='cc', seed=int(rng.integers(0, 2**31)), variant=i % 6, _cost=4))
+        cs.append(dict(kind='cc', seed=int(rng.integers(0, 2**31)), variant=i % 8, _cost=4))
     nb = 12 if tier == 'quick' else 300
     for b in range(nb):
         s = int(rng.integers(0, 2**31))
@@ -228,10 +228,23 @@ def run_cc(case, r):
         user = {Adaptivity: dict(e_tol=1e-5, dt_min=1e-4, dt_slope_min=0.2), StepSizeSlopeLimiter: dict(control_order=90.5, dt_slope_min=0.25)}
         expect = {StepSizeSlopeLimiter: dict(control_order=90.5, dt_slope_min=0.25)}
         need = [Adaptivity, StepSizeLimiter, StepSizeSlopeLimiter]
-    else:
+    elif v == 5:
         user = {Adaptivity: dict(e_tol=1e-5), SpreadStepSizesBlockwiseNonMPI: dict(overwrite_to_reach_Tend=False)}
         expect = {SpreadStepSizesBlockwiseNonMPI: dict(overwrite_to_reach_Tend=False)}
         need = [Adaptivity, SpreadStepSizesBlockwiseNonMPI]
+    else:
+        # two requested controllers related by inheritance (a user's subclass and its base class), in either order: every
+        # requested class is instantiated once, with its own parameters - "already present" is a statement about the class itself
+        class SlopeLimiterVariant(StepSizeSlopeLimiter):
+            pass
+
+        a, b = float(rng.uniform(1.5, 2.5)), float(rng.uniform(3.0, 4.0))
+        pair = [(SlopeLimiterVariant, dict(dt_slope_max=a)), (StepSizeSlopeLimiter, dict(dt_slope_max=b))]
+        if v == 7:
+            pair.reverse()
+        user = dict(pair)
+        expect = dict(pair)
+        need = [SlopeLimiterVariant, StepSizeSlopeLimiter]
     d['convergence_controllers'] = user
     r.key = f'cc/{v}/{spec["procs"]}'
     tag = f'cc variant {v}: user={ {k.__name__: val for k, val in user.items()} }'
@@ -247,6 +260,7 @@ def run_cc(case, r):
     r.check(all(a <= b for a, b in zip(orders[:-1], orders[1:])), 'ascending-control-order', f'{tag}: call order {[(type(ccs[i]).__name__, ccs[i].params.control_order) for i in order]} is not ascending')
     for cls, pars in expect.items():
         inst = [c for c in ccs if type(c) is cls]
+        r.check(len(inst) <= 1, 'controllers-instantiated-once', f'{tag}: {cls.__name__} instantiated {len(inst)} times')
         if not inst:
             continue
         for k, val in pars.items():
@@ -278,7 +292,7 @@ def run_fault(case, r):
 
     rng = np.random.default_rng(case['seed'])
     f = case['fault']
-    multi = f in ('no space transfer', 'bad predict_type ML', 'nsweeps coarse>1', 'PFASST GAUSS', 'PFASST RADAU-LEFT', 'odd iorder')
+    multi = f in ('no space transfer', 'bad predict_type ML', 'nsweeps coarse>1', 'PFASST GAUSS', 'PFASST RADAU-LEFT', 'PFASST mixed quad_type', 'odd iorder')
     spec = gen_valid(rng, nlev=int(rng.integers(2, 4)) if multi else None)
     d = materialize(spec)
     cp = dict(logger_level=50, dump_setup=False)
@@ -318,6 +332,15 @@ def run_fault(case, r):
     elif f == 'PFASST RADAU-LEFT':
         procs = max(2, procs)
         d['sweeper_params']['quad_type'] = 'RADAU-LEFT'
+    elif f == 'PFASST mixed quad_type':
+        # the quadrature type stated per level: one level without the right end point is enough (uend^k = u_M^k is used on every level)
+        procs = max(2, procs)
+        good, bad = ['RADAU-RIGHT', 'LOBATTO'], ['GAUSS', 'RADAU-LEFT']
+        q = [good[int(rng.integers(0, 2))] for _ in range(nlev)]
+        q[int(rng.integers(0, nlev))] = bad[int(rng.integers(0, 2))]
+        d['sweeper_params']['quad_type'] = q
+        d['sweeper_params']['QI'] = 'IE'
+        f = f'{f}: {q}'
     elif f == 'dtype_u key':
         d['dtype_u'] = 1
     elif f == 'dtype_f key':
@@ -368,6 +391,12 @@ def run_fault(case, r):
         ctrl = controller_nonMPI(procs, cp, d)
         try:
             post(ctrl)
+        except BaseException as e:  # noqa
+            rejected = type(e).__name__
+    elif f.startswith('PFASST'):
+        # "PFASST without the right end point as node is rejected at construction"
+        try:
+            ctrl = controller_nonMPI(procs, cp, d)
         except BaseException as e:  # noqa
             rejected = type(e).__name__
     else:
